@@ -1,4 +1,5 @@
 import FlowRecordProofs.Lemmas.Registry
+import FlowRecord.Gen.Formats
 /-!
 C03 — every record is decoded with the descriptor it was written with. Property theorems only.
 
@@ -11,6 +12,12 @@ open FlowRecord FlowRecord.Wire FlowRecord.Stream
 /-- Inst: the registration guard of `pack_obj`, as read off the current source, compares the registered descriptor
     (not only the identifier). The history theorem depends on exactly this. -/
 theorem C03_guard_compares_descriptor : Gen.writerGuardKind = "descriptor-comparison" := by decide
+
+/-- The JSON packer makes the same test for EVERY record it packs: `if self.descriptors.get(identifier) != obj._desc:
+    self.register(obj._desc, True)` is an unconditional statement of the record branch of `pack_obj`, ahead of the
+    serialisation - not a test made only when the record's class changes (every grouped record is an instance of one
+    class, whatever it groups), nor one behind a cache. -/
+theorem C03_json_packer_tests_every_record : Gen.jsonPackerGuardsDescriptor = true := by decide
 
 /-- The history theorem. For every write history and every assignment of identifier hashes: the reader, fed the
     frames the writer emitted, decodes every object with each of its descriptors (own, nested, grouped members)
